@@ -39,6 +39,8 @@ for C in $P $EXTRA; do
   echo "--- ./check $C on the mutant: $v"; echo "$out" | head -3
 done
 git -C /repo checkout -- .
+# the evidence written while the patch was applied describes the patched tree: restore the committed (unchanged-tree) evidence
+git -C /verif checkout -- evidence 2>/dev/null
 python3 - "$P" "$K" "$NEEDS" "$base" "$mut" "$tests" "$RES" <<'PY'
 import json, sys
 P, K, needs, base, mut, tests, res = sys.argv[1:8]
